@@ -226,6 +226,7 @@ func runC16(c *kc.Ctx) {
 	c16Ibe(c)
 	t2 := time.Now()
 	c16Anon(c)
+	c16ResultsAlive(c)
 	c.Extra("section_seconds", map[string]float64{"ecies": t1.Sub(t0).Seconds(), "ibe": t2.Sub(t1).Seconds(), "anon": time.Since(t2).Seconds()})
 }
 
